@@ -801,7 +801,7 @@ class DistGeometric(DistDiscrete):
         self._p = p
         # ln(1-p); for p = 1 (success at every trial) the limit -inf is used
         if p < 1.0:
-            self._lnp = math.log(1.0 - self._p)
+            self._lnp = math.log1p(-self._p)
         else:
             self._lnp = -math.inf
         
@@ -880,7 +880,7 @@ class DistNegBinomial(DistDiscrete):
         # helper variable equal to ln(1-p) to avoid repetitive calculation;
         # for p = 1 (success at every trial) the limit -inf is used
         if p < 1.0:
-            self._lnp = math.log(1.0 - self._p)
+            self._lnp = math.log1p(-self._p)
         else:
             self._lnp = -math.inf
         
